@@ -96,13 +96,18 @@ def run(tier, replay=None):
             x = rnd.random()
             e["size"] = 0 if x < 0.75 else (70000 if x < 0.93 else 1100000)
             e["typed"] = bool(e["meta"] and rnd.random() < 0.5)
+            # a custom notification whose params consist of _meta only (no ordinary field)
+            e["meta_only"] = bool(e["kind"] == "custom" and e["meta"] and e["size"] == 0 and rnd.random() < 0.5)
+    # the server's session flavour is a concretisation too: the answers of a POST are streamed the same way in all three
+    for sc in scs:
+        sc["srv"] = rnd.choice(["stateful", "stateful", "stateless", "nosession"])
     byid = {s["id"]: s for s in scs}
     strip = lambda s: {k: v for k, v in s.items() if not k.startswith("_")}
     groups = [[strip(s)] for s in scs]
     # concurrent pairs on one client: same mode and registration
     buckets = {}
     for s in scs:
-        buckets.setdefault((s["mode"], tuple(s["reg"])), []).append(s)
+        buckets.setdefault((s["mode"], tuple(s["reg"]), s["srv"]), []).append(s)
     pairs = []
     for key, lst in buckets.items():
         lst = [s for s in lst if s["emitted"]]
